@@ -60,8 +60,7 @@ def run(ck):
 PARTIAL = [
     "cur_eq_charge / no_drift / moved_in_charge_released / limit_zero_lifts hold for states reached by every "
     "operation (talloc_disable_null_tracking included) with arguments that are live user objects and keep the holder "
-    "graph acyclic (Reach), and for runs whose ghost flags oof/stuck stay clear (printed on every state of every "
-    "correspondence run, never set)",
+    "graph acyclic (Reach); no ghost-flag hypothesis remains (fuel_suffices, no_stuck proved)",
 ]
 
 
